@@ -27,7 +27,7 @@ SqrtRound(N, e, p, mode) ==
 OpSqrt(z, x) ==
   LET p == IF z.prec # 0 THEN z.prec ELSE x.prec
   IN IF x.form # "zero" /\ x.neg THEN NaN(p, z.mode)                        \* sqrt of a negative number, -Inf included
-     ELSE IF x.form # "finite" THEN Ok(Special(x.form, x.neg), p, z.mode, {"C05"})   \* sqrt(+-0) = +-0, sqrt(+Inf) = +Inf
+     ELSE IF x.form # "finite" THEN Ok(Special(x.form, x.neg), p, z.mode, {"C05", "C04"})   \* sqrt(+-0) = +-0, sqrt(+Inf) = +Inf (IEEE special values: also C04's)
      ELSE OkFree(SqrtRound(x.dig, CoefExp(x), p, z.mode), p, z.mode, {"C05"}, {"acc"})
 
 (***************************************************************************)
